@@ -125,9 +125,10 @@ func (node *OuterJoin) Typecheck(ctx context.Context, env physical.Environment, 
 
 	return physical.Node{
 		Schema: physical.Schema{
-			Fields:        outSchemaFields,
-			TimeField:     left.Schema.TimeField,
-			NoRetractions: left.Schema.NoRetractions && right.Schema.NoRetractions,
+			Fields:    outSchemaFields,
+			TimeField: left.Schema.TimeField,
+			// An outer join emits a null-padded row for an unmatched record and retracts it when a match arrives later.
+			NoRetractions: false,
 		},
 		NodeType: physical.NodeTypeOuterJoin,
 		OuterJoin: &physical.OuterJoin{
